@@ -45,7 +45,21 @@ MissingFields(v, entries) == {i \in 1..Len(v.fields) : ~FieldOK(v, i, At(entries
 (* field i of packed variable v is only ever written, and moved into place by a left shift (not by a        *)
 (* multiplication with a power of two): the one way of writing a field the tool is known not to understand  *)
 (* on its own (known_findings.json, C04-packed-write-only)                                                    *)
+(* field i of packed variable v starts at bit 0, is only ever written, and its source value is shifted down  *)
+(* before it is masked: the tool represents (x >> j) & m and x & (m << j) alike as "bits [j, j + n) of x" and  *)
+(* places an unshifted operand of a packed write at that offset j instead of at bit 0                           *)
+(* (known_findings.json, C04-preshifted-low-field)                                                              *)
+WriteOnlyField(v, i) == v.access = "w" \/ (v.top_w /\ Len(v.fields) > 1 /\ i = Len(v.fields))
+(* when all fields are written by one store the misplaced low field overlaps its neighbours, the `or` is not     *)
+(* understood at all, and every field that is not also read is lost with it                                     *)
+PreShiftedLow(v, i) ==
+    v.kind = "packed" /\ v.pre > 0 /\ WriteOnlyField(v, i) /\ (v.fields[i][1] = 0 \/ v.wall > 0)
+
 WriteOnlyShifted(v, i) ==
-    /\ v.kind = "packed" /\ ~v.wmul /\ v.fields[i][1] > 0
-    /\ (v.access = "w" \/ (v.top_w /\ Len(v.fields) > 1 /\ i = Len(v.fields)))
+    /\ v.kind = "packed" /\ ~v.wmul
+    /\ \/ /\ v.fields[i][1] > 0
+          /\ (v.access = "w" \/ (v.top_w /\ Len(v.fields) > 1 /\ i = Len(v.fields)))
+       \* all fields written by one store: a left-shifted operand keeps the whole `or` from being understood,
+       \* so the unshifted first field is lost with the others
+       \/ (v.wall > 0 /\ v.access = "w" /\ Len(v.fields) > 1)
 ===============================================================================
